@@ -1,6 +1,6 @@
 (* Property C18 — symbolized callables keep Python call semantics.
    Only statements and [exact]; definitions are in Model/Binding.v, proofs in Proofs/Binding*.v. *)
-From PG Require Import Common.Tactics Model.Binding Proofs.BindingMaps Proofs.BindingProofs Proofs.BindingSig Proofs.BindingReport Proofs.BindingDirect Proofs.BindingClass Proofs.BindingSets Model.BindingLang Gen.BindingCallTime Model.BindingRun Proofs.BindingGen Proofs.BindingNotify.
+From PG Require Import Common.Tactics Model.Binding Proofs.BindingMaps Proofs.BindingProofs Proofs.BindingSig Proofs.BindingReport Proofs.BindingDirect Proofs.BindingClass Proofs.BindingSets Model.BindingLang Gen.BindingCallTime Model.BindingRun Proofs.BindingGen Proofs.BindingNotify Proofs.BindingUnbind.
 From Coq Require Import NArith.
 Local Open Scope N_scope.
 
@@ -162,3 +162,35 @@ Theorem C18_reported_args_any_notification : forall q s ctor ov ie lates st0 st,
     vattr st = match evar e with Some l => l | None => [] end.
 Proof. exact functor_reports_effective_arguments_any_notification. Qed.
 Print Assumptions C18_reported_args_any_notification.
+
+(* Binding steps interleaved with UN-binding steps (del f.k; rebind(k=MISSING_VALUE) / f.k =
+   MISSING_VALUE, on the functor or through an ancestor, with or without notification) of required,
+   defaulted and keyword-only parameters, *args and **kwargs keys: an un-bound argument is no longer
+   supplied ([unsupply]); the call binds the effective arguments of the whole sequence ... *)
+Theorem C18_call_equiv_with_unbinding : forall q s ctor ov ie steps c ovo ieo,
+  wf_sig s -> no_quirks q -> steps_ok s steps -> call_ok s c ->
+  functor_bind_u q s ctor ov ie steps c ovo ieo =
+  spec_outcome_u s ctor steps c (match ovo with Some b => b | None => ov end) (match ieo with Some b => b | None => ie end).
+Proof. exact functor_binds_effective_arguments_with_unbinding. Qed.
+Print Assumptions C18_call_equiv_with_unbinding.
+
+(* ... the functor reports exactly the names and values still supplied ... *)
+Theorem C18_reported_args_with_unbinding : forall q s ctor ov ie steps st0 st,
+  wf_sig s -> no_quirks q -> steps_ok s steps ->
+  functor_ctor s ctor ov ie = Ok st0 -> late_all_u q s st0 steps = Ok st ->
+  exists e1 e, supply s eff0 ctor false false = Ok e1 /\ supply_steps s e1 steps = Ok e /\
+    (forall k, is_va s k = false -> smem k (spec st) = kmem k (enamed e)) /\
+    (has_va s = true -> smem (va_name s) (spec st) = match evar e with Some _ => true | None => false end) /\
+    (forall k, kget k (attrs st) = match kget k (enamed e) with Some v => Some v | None => default_of s k end) /\
+    vattr st = match evar e with Some l => l | None => [] end.
+Proof. exact functor_reports_effective_arguments_with_unbinding. Qed.
+Print Assumptions C18_reported_args_with_unbinding.
+
+(* ... and an un-bound argument is unspecified and shows its default (or nothing) again, so it can be
+   supplied at call time and is left out by to_json (which writes the specified arguments). *)
+Theorem C18_unbound_argument_is_unspecified : forall s st e k hd n st',
+  wf_sig s -> eff_ok s e -> rel s st e -> accepts_key s k = true -> (hd = true -> is_field s k = true) ->
+  unbind_one s st k hd n = Ok st' ->
+  smem k (spec st') = false /\ (is_va s k = false -> kget k (attrs st') = default_of s k) /\ (is_va s k = true -> vattr st' = []).
+Proof. exact unbound_argument_is_unspecified. Qed.
+Print Assumptions C18_unbound_argument_is_unspecified.
